@@ -5,7 +5,7 @@ set_option linter.unusedSectionVars false
 namespace Context
 open Py
 
-variable {K V P : Type} [DecidableEq K]
+variable {K V P : Type} [DecidableEq K] [DecidableEq P]
 
 theorem merge_nil_left (b : Assoc K V) : merge ([] : Assoc K V) b = b := by
   simp [merge, hasKey]
